@@ -76,3 +76,43 @@ Theorem ipython_cell_example :
   = [(("/src/a.py", 1, "f"), [(1, "", "def f(x):"); (2, "1", "    return x")]);
      ((ip_cell, 1, "c0"), [(1, "", "def c0(y):"); (2, "1", "    y += 1"); (3, "1", "    return y")])].
 Proof. vm_compute. reflexivity. Qed.
+
+(* A function whose file name is an IPython cell name while the cell's source is cached nowhere
+   (the statistics are viewed in another process than the notebook's): show_func takes the
+   File:/Function: branch, linecache.getlines gives nothing, inspect.getblock([]) = [] - the block
+   is a header and NO rows, although both recorded lines have numbers.  (An unknown ordinary file
+   name takes the "Could not find file" branch, which does print the rows.) *)
+Definition uc_cell : string := "<ipython-input-7-c0ffee>".
+Theorem uncached_cell_witness :
+  exists (st : stats) (k : key) (tm : list timing) (E : env) (o : options),
+    NoDup (map fst st) /\ In (k, tm) st /\ NoDup (map t_line tm) /\ tm <> []
+    /\ (forall t, In t tm -> snd (fst k) <= t_line t /\ 1 <= t_hits t)
+    /\ E (fst (fst k)) (snd (fst k)) = Cell []
+    /\ o_details o = true
+    /\ (exists b, In b (rp_blocks (show_text_py 1 None E o st)) /\ b_key b = k /\ b_rows b = [])
+    (* the same statistics under a name that is neither a file nor a cell keep their rows *)
+    /\ (exists b, In b (rp_blocks (show_text_py 1 None (fun _ _ => Missing) o st)) /\ b_key b = k
+                  /\ map r_lineno (b_rows b) = [1; 2; 3]).
+Proof.
+  exists [((uc_cell, 1, "c1"), [(2, 4, 900); (3, 4, 1100)])], (uc_cell, 1, "c1"), [(2, 4, 900); (3, 4, 1100)],
+         (fun _ _ => Cell []), (mkOpts false false false true).
+  split; [|split; [|split; [|split; [|split; [|split; [|split; [|split]]]]]]].
+  - repeat constructor. intros [].
+  - left. reflexivity.
+  - repeat constructor; cbn; intuition discriminate.
+  - discriminate.
+  - intros t [<-|[<-|[]]]; cbn; lia.
+  - reflexivity.
+  - reflexivity.
+  - eexists. split; [vm_compute; left; reflexivity|]. split; reflexivity.
+  - eexists. split; [vm_compute; left; reflexivity|]. split; reflexivity.
+Qed.
+
+(* a strict ascii stream: the row of a non-ASCII source line shows the placeholder, on its own row *)
+Theorem encoding_example :
+  option_map (fun b => map (fun r => (r_lineno r, r_text r)) (b_rows b))
+    (show_func (with_encoding (py_formatter 1 None) Ascii)
+               (fun _ _ => Found ["def e(x):"; bs [32;32;97;32;61;32;39;195;169;39]; "  return x"])
+               false ("e.py", 1, "e") [(2, 1, 5); (3, 1, 5)])
+  = Some [(1, "def e(x):"); (2, encode_fallback); (3, "  return x")].
+Proof. vm_compute. reflexivity. Qed.
